@@ -260,6 +260,75 @@ def reused_handle(line):
     except Exception as e:
         return exc_name(e)
 
+# ---- the same V / W OBJECTS across in-place edits: anything remembered about a string (hash, index, cached orbit)
+# must not survive p[i] = ..., set_substring, inc(); strings handed out by earlier calls are edited in place first
+def vedit_handle(line):
+    """`vedit <G> <V> <W> <edits>`: OTOC(V,W), OTOC(W,V) and the graph complexity of V are asked before and after every
+    in-place edit of the two operand objects (which are also hashed / stored in a set in between); each answer is judged
+    against the independent orbit BFS on the letters the operands show at that moment"""
+    import impl_collection as IC, pollute
+    from paulie.application.otoc import average_otoc
+    from paulie.application.graph_complexity import average_graph_complexity
+    try:
+        _, gs, v, w, eds = line.split(" ")
+        pollute.pollute(len(v), line, I.strs(gs))
+        c = IC.mk(I.strs(gs))
+        cur = IC.names(c)
+        V, W = I.mk(v), I.mk(w)
+        seen = set()
+        def observe(when):
+            sv, sw = str(V), str(W)
+            dist = I.orbit_dist(cur, sv)
+            sz = len(dist)
+            a = sum(1 for x in dist if O.anti(O.enc(sw), x))
+            f = average_otoc(c, V, W)
+            if abs(f - (1 - 2 * a / sz)) > 1e-9:
+                return f"{when}: average_otoc(G={cur}, V={sv}, W={sw}) = {f}, orbit definition 1-2*{a}/{sz}"
+            distw = I.orbit_dist(cur, sw)
+            aw = sum(1 for x in distw if O.anti(O.enc(sv), x))
+            f2 = average_otoc(c, W, V)
+            if abs(f2 - (1 - 2 * aw / len(distw))) > 1e-9:
+                return f"{when}: average_otoc(G={cur}, V={sw}, W={sv}) = {f2}, orbit definition 1-2*{aw}/{len(distw)}"
+            if len(sv) <= 3:
+                g = average_graph_complexity(c, V)
+                exp = sum(dist.values()) / sz
+                if abs(g - exp) > 1e-9 * max(1.0, exp):
+                    return f"{when}: average_graph_complexity(G={cur}, V={sv}) = {g}, mean orbit distance {exp}"
+            seen.add(V); seen.add(W); hash(V); hash(W)
+            return None
+        why = observe("before any edit")
+        if why:
+            return why
+        for k, e in enumerate([] if eds == "-" else eds.split(";")):
+            t = e.split(":")
+            p = V if t[0] == "v" else W
+            if t[1] == "set": p[int(t[2])] = t[3]
+            elif t[1] == "sub": p.set_substring(int(t[2]), t[3])
+            elif t[1] == "inc": p.inc()
+            why = observe(f"after the in-place edits {';'.join(eds.split(';')[:k + 1])}")
+            if why:
+                return why
+        return "ok"
+    except Exception as e:
+        return exc_name(e)
+
+def gen_vedit(rng):
+    n = rng.choice([2, 2, 3, 3, 4])
+    gs = [rs(rng, n, rng.choice([1, 2])) for _ in range(rng.randint(2, 5))]
+    v, w = rs(rng, n), rs(rng, n)
+    eds = []
+    for _ in range(rng.randint(1, 4)):
+        who = rng.choice("vvw")
+        k = rng.choice(["set", "set", "sub", "inc"])
+        if k == "set":
+            eds.append(f"{who}:set:{rng.randrange(n)}:{rng.choice('IXYZ')}")
+        elif k == "sub":
+            st = rng.randrange(n)
+            eds.append(f"{who}:sub:{st}:{rs(rng, rng.randint(1, n - st))}")
+        else:
+            eds.append(f"{who}:inc")
+    return f"vedit {','.join(gs)} {v} {w} {';'.join(eds)}"
+
 def gen_reused(rng):
     import props.c10 as C10
     n = rng.choice([2, 2, 3, 3])
@@ -390,6 +459,8 @@ def build_streams(rng, tier):
         Stream("model-cores", core, h, oracle, nontrivial=nt, tag=tag, shrink=shrink),
         Stream("same-collection-object-across-edits", [gen_reused(rng) for _ in range(1200 if tier == "thorough" else 250)], reused_handle,
                oracle=lambda l, o: None if o == "ok" else o, model=False, tag=lambda l, o: "reuse:" + ("ok" if o == "ok" else "bad")),
+        Stream("operand-objects-edited-in-place-between-calls", [gen_vedit(rng) for _ in range(1200 if tier == "thorough" else 300)], vedit_handle,
+               oracle=lambda l, o: None if o == "ok" else o, model=False, tag=lambda l, o: "vedit:" + ("ok" if o == "ok" else "bad")),
     ]
 
 def shrink(line):
@@ -432,6 +503,10 @@ def main(tier):
 
 def replay(path):
     r = json.load(open(path)); line = r.get("line")
+    if line.split(" ")[0] in ("reuse", "vedit"):
+        out = (reused_handle if line.startswith("reuse") else vedit_handle)(line)
+        print("line:", line); print("implementation-side verdict:", out[:500]); print("oracle:", "holds" if out == "ok" else out)
+        return 0 if out == "ok" else 1
     out = I.handle(line); why = oracle(line, out)
     print("line:", line); print("implementation:", out[:500]); print("model:", run_model([line])[0][:500]); print("oracle:", why or "holds")
     return 1 if why else 0
